@@ -250,9 +250,9 @@ def run(tier):
                  'subset observer and compared with an association-list model; non-trivial = edges whose post-state differs')
     if tier == 'quick':
         plan = [(MapDomain, CONFIGS[0], 3), (MapDomain, CONFIGS[1], 3), (MapDomain, CONFIGS[2], 4), (MapDomain, CONFIGS[4], 3),
-                (SetDomain, CONFIGS[0], 3), (SetDomain, CONFIGS[1], 3), (SetDomain, CONFIGS[2], 4), (SetDomain, CONFIGS[4], 3)]
+                (SetDomain, CONFIGS[0], 4), (SetDomain, CONFIGS[1], 4), (SetDomain, CONFIGS[2], 4), (SetDomain, CONFIGS[4], 3)]
     else:
-        plan = [(MapDomain, c, 4) for c in CONFIGS] + [(SetDomain, c, 5) for c in CONFIGS]
+        plan = [(MapDomain, c, 4) for c in CONFIGS] + [(SetDomain, c, 5) for c in CONFIGS] + [(SetDomain, CONFIGS[0], 6), (MapDomain, CONFIGS[0], 5)]
     for D, cfg, nk in plan:
         dom = D(cfg, nk)
         explore(rep, dom, max_depth=40, binary_pool=map_others if D is MapDomain else set_others)
